@@ -18,43 +18,47 @@ Section Bisect.
 Variable ok : nat -> bool.
 
 (* smallest G in [lo, hi] with ok G, for ok upward closed and ok hi *)
+Variables Lb Hb : nat.        (* monotonicity is only needed on the search range [Lb, Hb] *)
+
 Lemma bisect_min_spec : forall fuel lo hi,
-  (forall g g', (g <= g')%nat -> ok g = true -> ok g' = true) ->
+  (forall g g', (Lb <= g)%nat -> (g <= g')%nat -> (g' <= Hb)%nat -> ok g = true -> ok g' = true) ->
+  (Lb <= lo)%nat -> (hi <= Hb)%nat ->
   (lo <= hi)%nat -> (hi - lo <= fuel)%nat -> ok hi = true ->
   let r := bisect_min ok lo hi fuel in
   (lo <= r <= hi)%nat /\ ok r = true /\ forall g, (lo <= g < r)%nat -> ok g = false.
 Proof.
-  induction fuel as [|fuel IH]; intros lo hi Hup Hle Hf Hhi; cbn [bisect_min].
+  induction fuel as [|fuel IH]; intros lo hi Hup HL HH Hle Hf Hhi; cbn [bisect_min].
   - assert (lo = hi) by lia. subst. split; [lia|split; [exact Hhi|intros g Hg; lia]].
   - destruct (Nat.ltb_spec lo hi) as [Hlt|Hge].
     + pose proof (div2_between lo hi Hle) as [M1 M2]. pose proof (div2_lt lo hi Hlt) as M3.
       set (mid := Nat.div2 (lo + hi)) in *.
       destruct (ok mid) eqn:Em.
-      * destruct (IH lo mid Hup M1 ltac:(lia) Em) as [R1 [R2 R3]]. split; [lia|split; [assumption|]]. intros g Hg. apply R3. lia.
-      * destruct (IH (S mid) hi Hup ltac:(lia) ltac:(lia) Hhi) as [R1 [R2 R3]]. split; [lia|split; [assumption|]].
+      * destruct (IH lo mid Hup HL ltac:(lia) M1 ltac:(lia) Em) as [R1 [R2 R3]]. split; [lia|split; [assumption|]]. intros g Hg. apply R3. lia.
+      * destruct (IH (S mid) hi Hup ltac:(lia) HH ltac:(lia) ltac:(lia) Hhi) as [R1 [R2 R3]]. split; [lia|split; [assumption|]].
         intros g Hg. destruct (Nat.le_gt_cases g mid) as [Hgm|Hgm].
-        -- destruct (ok g) eqn:Eg; [|reflexivity]. rewrite (Hup g mid Hgm Eg) in Em. discriminate.
+        -- destruct (ok g) eqn:Eg; [|reflexivity]. rewrite (Hup g mid ltac:(lia) Hgm ltac:(lia) Eg) in Em. discriminate.
         -- apply R3. lia.
     + assert (lo = hi) by lia. subst. split; [lia|split; [exact Hhi|intros g Hg; lia]].
 Qed.
 
 (* largest G in [lo, hi] with ok G, for ok downward closed and ok lo *)
 Lemma bisect_max_spec : forall fuel lo hi,
-  (forall g g', (g <= g')%nat -> ok g' = true -> ok g = true) ->
+  (forall g g', (Lb <= g)%nat -> (g <= g')%nat -> (g' <= Hb)%nat -> ok g' = true -> ok g = true) ->
+  (Lb <= lo)%nat -> (hi <= Hb)%nat ->
   (lo <= hi)%nat -> (hi - lo <= fuel)%nat -> ok lo = true ->
   let r := bisect_max ok lo hi fuel in
   (lo <= r <= hi)%nat /\ ok r = true /\ forall g, (r < g <= hi)%nat -> ok g = false.
 Proof.
-  induction fuel as [|fuel IH]; intros lo hi Hdn Hle Hf Hlo; cbn [bisect_max].
+  induction fuel as [|fuel IH]; intros lo hi Hdn HL HH Hle Hf Hlo; cbn [bisect_max].
   - assert (lo = hi) by lia. subst. split; [lia|split; [exact Hlo|intros g Hg; lia]].
   - destruct (Nat.ltb_spec lo hi) as [Hlt|Hge].
     + pose proof (div2_up_gt lo hi Hlt) as M1. pose proof (div2_up_le lo hi Hle) as M2.
       set (mid := Nat.div2 (lo + hi + 1)) in *.
       destruct (ok mid) eqn:Em.
-      * destruct (IH mid hi Hdn M2 ltac:(lia) Em) as [R1 [R2 R3]]. split; [lia|split; [assumption|]]. intros g Hg. apply R3. lia.
-      * destruct (IH lo (mid - 1)%nat Hdn ltac:(lia) ltac:(lia) Hlo) as [R1 [R2 R3]]. split; [lia|split; [assumption|]].
+      * destruct (IH mid hi Hdn ltac:(lia) HH M2 ltac:(lia) Em) as [R1 [R2 R3]]. split; [lia|split; [assumption|]]. intros g Hg. apply R3. lia.
+      * destruct (IH lo (mid - 1)%nat Hdn HL ltac:(lia) ltac:(lia) ltac:(lia) Hlo) as [R1 [R2 R3]]. split; [lia|split; [assumption|]].
         intros g Hg. destruct (Nat.le_gt_cases mid g) as [Hgm|Hgm].
-        -- destruct (ok g) eqn:Eg; [|reflexivity]. rewrite (Hdn mid g Hgm Eg) in Em. discriminate.
+        -- destruct (ok g) eqn:Eg; [|reflexivity]. rewrite (Hdn mid g ltac:(lia) Hgm ltac:(lia) Eg) in Em. discriminate.
         -- apply R3. lia.
     + assert (lo = hi) by lia. subst. split; [lia|split; [exact Hlo|intros g Hg; lia]].
 Qed.
